@@ -54,6 +54,11 @@ int main() {
     // pending stream state (field width, fill, adjustment, float format): what the pieces of a quantity / point consume must not depend on the compiler
     o << std::setw(12) << meters_pt(3.5) << '|' << std::setw(10) << meters(2) << '|' << std::left << std::setw(10) << std::setfill('.') << celsius_pt(-40.5)
       << '|' << std::right << std::setw(9) << std::setfill('*') << feet(7) << '|' << std::fixed << std::setprecision(2) << std::setw(14) << kelvins_pt(2.5);
+    // free functions found by (qualified) name lookup inside math.hh: which overloads are visible must not depend on the order in which a
+    // packaging emits the unit headers
+    o << std::setprecision(17) << std::defaultfloat << '|' << sin(degrees(360.0)) << '|' << cos(degrees(270.0)) << '|' << tan(degrees(1000.0))
+      << '|' << sin(revolutions(1.25)) << '|' << cos(radians(4.0)) << '|' << arcsin(0.5).in(degrees) << '|' << round_in(feet, meters(2.0))
+      << '|' << fmod(degrees(725.0), revolutions(1.0)).in(degrees) << '|' << inverse_as(micro(seconds), hertz(8.0));
     char buf[256];
     int n = probe_b(buf, 256);
     std::printf("%%s|%%.*s\n", o.str().c_str(), n, buf);
@@ -152,7 +157,8 @@ class C20(F.Check):
         # link probes: two translation units using labels, numeric_limits members, streaming (ODR-uses of static data members), compiled at -O0,
         # linked and run under both compilers, every -std, multi-header tree and single-file header
         multi_inc = "\n".join('#include "%s"' % h for h in ("au/au.hh", "au/io.hh", "au/units/meters.hh", "au/units/feet.hh", "au/units/inches.hh", "au/units/seconds.hh",
-                                                             "au/units/celsius.hh", "au/units/kelvins.hh", "au/units/fahrenheit.hh", "au/units/bytes.hh",
+                                                             "au/units/celsius.hh", "au/units/kelvins.hh", "au/units/fahrenheit.hh", "au/units/bytes.hh", "au/units/degrees.hh", "au/units/radians.hh",
+                                                             "au/units/revolutions.hh", "au/units/hertz.hh",
                                                              "au/constants/speed_of_light.hh")) + "\n#include <chrono>"
         jobs = []
         for cxx, cname in ((F.CLANG, "clang"), (F.GXX, "gcc")):
